@@ -191,7 +191,7 @@ def _corpus(thorough):
     # degenerate narrow-phase family of C19 (exact touching, coincident, zero-volume, needles): exception types and finiteness
     from . import c19
     for i, st in enumerate(c19.enumerate_states("quick", 0)[0]):
-        if st["op"] == 0 and ((i % 7 == 0 or st["pl"] in (1, 8)) and (i % 3 == 0) or thorough):
+        if st.get("op") == 0 and ((i % 7 == 0 or st["pl"] in (1, 8)) and (i % 3 == 0) or thorough):
             C.append({"k": "degenerate", "a": st["a"], "b": st["b"], "pl": st["pl"], "op": st["op"]})
     return C
 
@@ -368,7 +368,8 @@ def execute(call):
         off = {"coincident": np.zeros(3), "touch_x": cAB + np.array([hA[0] + hB[0], 0.0, 0.0]),
                "tiny_gap_x": cAB + np.array([hA[0] + hB[0] + 1e-9, 0.0, 0.0]), "half_x": cAB + np.array([0.5 * (hA[0] + hB[0]), 0.0, 0.0]),
                "apart_x": cAB + np.array([2.0 * (hA[0] + hB[0]) + 1.0, 0.0, 0.0]), "small_generic": max(1e-3, min(np.max(hA), np.max(hB))) * np.array([0.3, 0.2, 0.1]),
-               "diag_touch": cAB + (hA + hB), "touch_z": cAB + np.array([0.0, 0.0, hA[2] + hB[2]]), "same_object": np.zeros(3)}[pl]
+               "diag_touch": cAB + (hA + hB), "touch_z": cAB + np.array([0.0, 0.0, hA[2] + hB[2]]), "same_object": np.zeros(3),
+               "small_gap_x": cAB + np.array([hA[0] + hB[0] + 1e-5, 0.0, 0.0]), "small_gap_z": cAB + np.array([0.0, 0.0, hA[2] + hB[2] + 1e-5])}[pl]
         B = A if pl == "same_object" else c19.make(ib, ob, off)
         tb = ia[0] if pl == "same_object" else ib[0]
         for name, fn in c19.entries(ia[0], tb):
